@@ -354,6 +354,10 @@ func runC12(p *core.Prog, r *core.Report, tier string) {
 	}
 	r.Floor("C12.h configurator constructions", nH, 2)
 
+	// (i) no entry of the decoded configuration can crash a lookup: shared with C16.d for the configuration packages
+	nI := checkDecodedCollections(p, r, ds, "C12.i", p.SrcFuncs(), func(rel string) bool { return strings.HasPrefix(rel, "services/blockrelay") })
+	r.Floor("C12.i decoded configuration entries dereferenced", nI, 4)
+
 	if tier == "thorough" {
 		// generalised sweep: pairing + re-entrancy over the whole repository (observations only outside the package)
 		n := 0
